@@ -7,6 +7,7 @@ import (
 	"runtime"
 	"sort"
 	"strings"
+	"sync"
 	"time"
 
 	"github.com/form3tech-oss/f1/v2/verifharness/core"
@@ -129,4 +130,39 @@ func hiccups() func() time.Duration {
 		}
 	}()
 	return func() time.Duration { close(stop); return <-out }
+}
+
+// hiccupsUntil is hiccups with a time line: the returned function stops the watch and gives the longest delay seen up to
+// the instant `at` of the given clock (what happens once the situation a case waits for has occurred does not count).
+func hiccupsUntil(now func() time.Duration) func(at time.Duration) time.Duration {
+	type sample struct{ at, late time.Duration }
+	stop := make(chan struct{})
+	out := make(chan []sample, 1)
+	go func() {
+		var ss []sample
+		for {
+			t0 := time.Now()
+			select {
+			case <-stop:
+				out <- ss
+				return
+			case <-time.After(time.Millisecond):
+			}
+			if d := time.Since(t0) - time.Millisecond; d > 500*time.Microsecond {
+				ss = append(ss, sample{now(), d})
+			}
+		}
+	}()
+	var once sync.Once
+	var got []sample
+	return func(at time.Duration) time.Duration {
+		once.Do(func() { close(stop); got = <-out })
+		var worst time.Duration
+		for _, s := range got {
+			if s.at <= at && s.late > worst {
+				worst = s.late
+			}
+		}
+		return worst
+	}
 }
